@@ -260,4 +260,18 @@ func init() {
 			{Pkg: "websocket", Func: "HarnessC13_TruncWriter", Labels: []string{"truncwriter"}, Bound: "every input of 0..10 symbolic bytes split into 3 writes at every pair of offsets"},
 		},
 	})
+	reg(&propSpec{
+		ID:   "C15",
+		Rule: "Harness in harness/websocket/c15.go: engine threads for one data writer (multi-frame message), 1-2 control senders and an optional closer on one connection; every order of their acquiring operations (c.mu receive/select, writeErrMu, result channels) is a forked schedule decision, reduced by sleep sets; the captured transport writes are parsed by the independent frame parser.",
+		Assumptions: append([]string{
+			"scheduling choices are made before acquiring operations (lock, channel receive, blocking send, select); releasing operations (unlock, non-blocking buffered send) need none; sleep sets prune reorderings of independent operations (operations on different synchronisation objects); both reductions are sound for data-race-free executions and races are reported by the vector-clock detector",
+			"no concurrent reader thread (it shares state with writers only through WriteControl); write deadlines never expire",
+			"schedule-dependent counterexamples are reproduced natively by re-running the case under schedule perturbation (up to 400 attempts, -race); a counterexample that does not reproduce is reported as ENGINE-MISMATCH, not as a violation",
+		}, wsAssume...),
+		Harnesses: []harnessSpec{
+			{Pkg: "websocket", Func: "HarnessC15_Concurrent", TimeFixed: true, Race: true, Labels: []string{"concurrent"},
+				Bound:  "client or server; data message of 2-3 symbolic bytes sent through a 15-byte write buffer (3-4 frames) or, as server, 31 bytes in one unbuffered write; 1 ping sender with 0-1 payload bytes; optional close sender; all schedules",
+				BoundT: "1-2 control senders (ping, pong)"},
+		},
+	})
 }
